@@ -249,6 +249,9 @@ class Ctx:
         wall = time.time() - self.t0
         os.makedirs(os.path.join(OUT, 'evidence'), exist_ok=True)
         os.makedirs(os.path.join(OUT, 'replays'), exist_ok=True)
+        import glob
+        for old in glob.glob(os.path.join(OUT, 'replays', f'{self.pid}-*.json')):     # replay files of earlier runs of this check are stale
+            os.remove(old)
         if self.harness_errors:
             for part, cell, txt in self.harness_errors[:5]:
                 print(f'ERROR harness: property={self.pid} part={part} cell={json.dumps(cell, default=str)[:300]}\n{txt}')
